@@ -77,12 +77,24 @@ type c07Golden struct {
 
 // buildGolden generates (package, request) for graph index gi and its universe; ok=false if unusable.
 func buildGolden(c *fw.Case, r *rand.Rand, minN, maxN int) (*c07Golden, bool) {
+	return buildGoldenOpt(c, r, minN, maxN, false)
+}
+
+// buildGoldenOpt: with indexOut the request's output module is a block-index module.
+func buildGoldenOpt(c *fw.Case, r *rand.Rand, minN, maxN int, indexOut bool) (*c07Golden, bool) {
 	for attempt := 0; attempt < 200; attempt++ {
 		cc := *c
 		cc.R = r
-		s := newScen(&cc, gen.PkgOpts{MaxMods: 6})
+		opts := gen.PkgOpts{MaxMods: 6}
+		if indexOut {
+			opts.IndexProb = 0.5
+		}
+		s := newScen(&cc, opts)
 		g := &c07Golden{s: s, files: map[string][]byte{}}
 		outs := s.outputs()
+		if indexOut {
+			outs = s.indexOutputs()
+		}
 		if len(outs) == 0 {
 			s.close()
 			continue
@@ -97,7 +109,18 @@ func buildGolden(c *fw.Case, r *rand.Rand, minN, maxN int) (*c07Golden, bool) {
 			continue
 		}
 		res := s.cl.Run(req)
-		if res.Err != nil || res.Stuck || len(res.Jobs) == 0 {
+		if res.Stuck || res.Err != nil {
+			// the clean run on an empty cache is itself a request of the property's domain: its failure is a finding, not a reason to draw again
+			extra := map[string]any{"request": req, "jobs": res.Jobs, "kind": "clean run on an empty cache"}
+			if res.Stuck {
+				c.Violation(c.Spec.ID+"/liveness/request-stuck-no-job-in-flight", "the clean run on an empty cache made no progress for 45 s with no tier2 job in flight (cancelled by the harness)", s.witness(extra))
+			} else {
+				c.Violation(c.Spec.ID+"/request-failed/"+fw.NormalizeMsg(res.Err.Error()), "the clean run on an empty cache failed: "+res.Err.Error(), s.witness(extra))
+			}
+			s.close()
+			return nil, false
+		}
+		if len(res.Jobs) == 0 {
 			s.close()
 			continue
 		}
